@@ -92,7 +92,7 @@ class Unit:
         return r, (s.model() if r == "sat" else None), s
 
     def prove(self, name, phi, hyps, on_cex=None, axioms=True, blockers=None,
-              mandatory=True, max_findings=6, sample=False):
+              mandatory=True, max_findings=6, sample=False, abstract=False):
         """Obligation  hyps => phi.
 
         ``on_cex(model)`` must replay the counterexample on the real code and
@@ -105,7 +105,14 @@ class Unit:
         self.r["obligations"] += 1
         hyps = list(hyps)
         neg = z3.Not(phi)
-        ax = symx.axioms_for(hyps + [neg]) if axioms is True else list(axioms or [])
+        if axioms is True:
+            # axioms over the hypotheses are cached per hypothesis list (paths reuse it)
+            key = tuple(h.get_id() for h in hyps)
+            if getattr(self, "_axkey", None) != key:
+                self._axkey, self._axapps = key, symx.apps_of(hyps)
+            ax = symx.axioms_from_apps(self._axapps + symx.apps_of([neg]))
+        else:
+            ax = list(axioms or [])
         extra = list(blockers or [])
         if sample and len(self.r["samples"]) < 3:
             s = z3.Solver()
@@ -114,6 +121,12 @@ class Unit:
             self.sample({"obligation": name, "smt2_head": txt[:1500],
                          "smt2_bytes": len(txt)})
         for _ in range(max_findings):
+            if abstract:
+                # fast path: UF applications as opaque constants (sound for unsat)
+                r, m, _s = self.solve(symx.abstract_ufs(hyps + ax + extra + [neg]))
+                if r == "unsat":
+                    self.r["discharged"] += 1
+                    return True
             r, m, _s = self.solve(hyps + ax + extra + [neg])
             if r == "unsat":
                 self.r["discharged"] += 1
